@@ -22,8 +22,8 @@ def run_e2e(args):
         root = a["root"]
         ds, written = I.build_dataset(root, a["fmt"], a["comp"], a["eps"], a["plan"])
         ds = Dataset(root)
-        enum = I.enumeration(ds)
-        rec = {"case": {k: a[k] for k in a if k != "root"}, "written": written,
+        enum, enum_err = I.safe_enumeration(ds)
+        rec = {"case": {k: a[k] for k in a if k != "root"}, "written": written, "enum_error": enum_err,
                "shards": {s: enum.get(s, []) for s in written}, "runs": []}
         for split in [s for s in written if written[s]]:
             N = len(written[split])
@@ -80,6 +80,9 @@ def run(ctx):
     for i in range(0, len(cases), 4):
         recs += child.call("harness.checks.c19", "run_e2e", cases[i:i + 4], timeout=1500)
     nruns, distinct = 0, set()
+    for r in recs:
+        if r.get("enum_error"):
+            ctx.report({"kind": "listing-error"}, f"enumerating the shards of a valid dataset failed: {r['enum_error']}", {"case": r["case"]})
     for r in recs:
         for run_ in r["runs"]:
             nruns += 1
